@@ -126,7 +126,7 @@ def main(argv: List[str]) -> int:
             tag = "+".join(edits) or "identity"
             if rc == 1:
                 for ob, what in viol[:6]:
-                    run.violation(f"evolve:{tag}:{pid}:{ob}", f"on the evolved model {mname} ({edits}) check {pid} fails: {what[:300]}", {"model": mname, "edits": edits, "seed": seed, "sub_check": pid, "sub_obligation": ob, "replay": f"VERIF_REPO=<overlay built from oracle.evolve.evolve(lsp.json, {edits}, {seed})> bin/check {pid}"}, True)
+                    run.violation(f"evolve:{pid}:{ob}", f"on the evolved model {mname} ({edits}) check {pid} fails: {what[:300]}", {"model": mname, "edits": edits, "seed": seed, "sub_check": pid, "sub_obligation": ob, "replay": f"VERIF_REPO=<overlay built from oracle.evolve.evolve(lsp.json, {edits}, {seed})> bin/check {pid}"}, True)
                 if not viol:
                     run.crash(f"sub-check {pid} on {mname} exited 1 without a VIOLATION line: {tail[-300:]}")
             elif rc == 2:
